@@ -5,7 +5,7 @@ w=$1; shift
 D=/tmp/mx/$w
 rm -rf $D; mkdir -p $D
 git clone -q /repo $D/repo
-rsync -a --exclude .git --exclude .build --exclude replays /verif/ $D/verif/
+rsync -a --exclude .git --exclude .build --exclude replays ${VSRC:-/verif}/ $D/verif/
 sed -i "s|=> /repo|=> $D/repo|" $D/verif/harness/go.mod
 cd $D/verif
 export GOFLAGS=-mod=mod GOPROXY=off
